@@ -21,6 +21,7 @@ EXPLANATION = (
     "unifies it with fn -> void and has an error arm for a missing start."
     " (START agreement) the resolver accepts only a variable defined in the main file as `start`, and the checker and the lowering look for exactly that variable; (BINDER-TYPED) `self` of a blob literal has the instance's type, so field accesses through it are checked; (COPY is-a-declaration) the name a variant or blob literal is built from is shown to be a declaration (not a parameter or local of that name whose unknown type defers the variant check for ever)."
     ' (ACCEPT tuple-length-guard, shared with C03) operator checkers recurse element-wise only into tuples of equal length.'
+    ' (VISIT-tc Blob, shared) no non-error exit stands in front of the field checks of a blob literal; a missing field is an error in every row of the Field handler.'
 )
 UNDECIDED = "nothing about run-time shapes (that is C02); error wording."
 
